@@ -317,9 +317,17 @@ def run_case(case):
         rb = _call(H, G, cfg)
         del G, H
         calls += 2
-        pg = _prepared(gt, gc, gk, tb, fb)
-        ph = _prepared(ht, hc, hk, tb, fb)
         det = {"dt": dt}
+        try:
+            pg = _prepared(gt, gc, gk, tb, fb)
+            ph = _prepared(ht, hc, hk, tb, fb)
+        except Exception as e:  # noqa  -- the public buffer_geometry (which defines 'the buffered geometries') raised on a valid input
+            out.fail("range", "buffer_geometry raised %s: %s" % (type(e).__name__, str(e)[:120]),
+                     "the buffered geometries exist for every valid geometry and non-negative buffers",
+                     dict(cell, fn="buffer_geometry", kind="buffered_reference_raised"), det)
+            if dt == 0:
+                klass = branch + ":no_buffered_reference"
+            continue
         if dt == 0:
             base = ra
             base_reaches_zero = not (pg[2][0] > 0 and ph[2][0] > 0)
@@ -415,6 +423,11 @@ def run_case(case):
                 out.expect("time_only_iou", abs(fa - exp) <= TOL_EXACT, a, float(exp),
                            {"fn": FN, "kind": "time_iou_mismatch", "time_only": which, "buffered": thin},
                            dict(det, expected_exact=str(exp), extents=[[float(x) for x in pg[2]], [float(x) for x in ph[2]]]))
+                if exp == 0 and not thin:
+                    # extents that are the given doubles themselves (nothing buffered) and do not overlap, e.g. merely touch: the
+                    # intersection of [a, b] and [b, c] is empty for the very numbers passed in, so the affinity is 0, not 1e-16 (a
+                    # positive affinity, however small, makes the pair eligible for matching)
+                    out.expect("time_only_iou", a == 0, a, 0.0, {"fn": FN, "kind": "zero_iou_reported_positive", "time_only": which, "buffered": thin}, det)
         else:
             out.vac("time_only_iou")
 
